@@ -78,7 +78,7 @@ def run(ctx):
         ctx.case(("replay", p["shape"], p["npol"], p["bias"], p["linear"], p["sps"], len(bits)), {"bits": bits, "plan": p})
     ctx.behaviours += len(evs[::step])
     # ---- 2. random configurations over the statement's range
-    for it in range(120 if T else 40):
+    for it in range(600 if T else 40):
         sps = rnd.choice([4, 5, 7, 8, 16, 17, 32, 33, 64])
         n = rnd.choice([8, 32, 100])
         kind = rnd.choice(["random", "prbs", "runs", "alt", "single1", "single0"])
@@ -102,7 +102,7 @@ def run(ctx):
                   10 ** rnd.uniform(1, 3), rnd.uniform(0.7, 3.0), ("random", kind, sps, shape))
         ctx.case(("random", kind, sps % 2, sps >= 16, shape))
     # ---- 3. packaged decision routines
-    for it in range(10 if T else 4):
+    for it in range(40 if T else 4):
         sps = rnd.choice([8, 16, 32])
         gv(sps=sps, R=10e9)
         n = rnd.choice([32, 64, 127])
@@ -130,7 +130,7 @@ def run(ctx):
         berp = ppm.BER_analizer("counter", Tx=bits, Rx=binary_sequence(rxb))
         events.append({"kind": "ber", "k": k, "n": n, "reported_ppm": int(round(float(berp) * 1e6))})
         meta.append(("ber", "ppm", "list"))
-    for it in range(16 if T else 8):
+    for it in range(48 if T else 8):
         M = [2, 4, 8, 16][it % 4]
         sps = rnd.choice([8, 16])
         gv(sps=sps, R=10e9)
